@@ -1,6 +1,10 @@
 #!/usr/bin/env python3
 """
-Evaluate one seeded change:  tools/seed_eval.py C05 a [/tmp/seed_C05_out/a] [--all] [--tests]
+Evaluate one seeded change:  tools/seed_eval.py C05 a [/tmp/seed_C05_out/a] [--all] [--tests] [--wt]
+
+ --wt : instead of patching /repo itself, apply the change in the private scratch worktree /tmp/wt_seedeval and point the
+        check at it (STARSIM_REPO) — used while other sessions are running checks against /repo; the final confirmation
+        runs patch /repo as below.
 
  1. copies patch.diff / demo.py / README.md into seeded/<Cxx><a>/
  2. demo on the clean /repo must exit 0
@@ -13,7 +17,8 @@ import json, os, subprocess, sys, shutil, time
 here = os.path.dirname(os.path.dirname(os.path.abspath(__file__)))
 prop, tag = sys.argv[1], sys.argv[2]
 src = sys.argv[3] if len(sys.argv) > 3 and not sys.argv[3].startswith('--') else f'/tmp/seed_{prop}_out/{tag}'
-do_all = '--all' in sys.argv; do_tests = '--tests' in sys.argv
+do_all = '--all' in sys.argv; do_tests = '--tests' in sys.argv; use_wt = '--wt' in sys.argv
+TARGET = f'/tmp/wt_seedeval_{prop}_{os.getpid()}' if use_wt else '/repo'
 sid = f'{prop}{tag}'
 dst = os.path.join(here, 'seeded', sid)
 os.makedirs(dst, exist_ok=True)
@@ -29,24 +34,29 @@ def demo(env_repo):
     rc, out = sh(f'cd /tmp && PYTHONPATH={env_repo} /venv/bin/python -W ignore {dst}/demo.py', timeout=1800)
     return rc, out[-600:]
 
-def check(p):
+def check(p, patched=True):
     t0 = time.time()
-    rc, out = sh(f'./check {p} --tier quick', cwd=here, timeout=3600)
+    env = dict(os.environ)
+    if use_wt and patched: env['STARSIM_REPO'] = TARGET
+    rc, out = sh(f'./check {p} --tier quick', cwd=here, timeout=3600, env=env)
     lines = [l for l in out.split('\n') if l.startswith('VIOLATION') or l.startswith('  ')][:8]
     return dict(exit=rc, wall_s=round(time.time() - t0), violations=[l[:400] for l in lines if l.startswith('VIOLATION')],
                 detail=[l[:400] for l in lines if l.startswith('  ')][:4],
                 no_failing_input=any('no-failing-input-found' in l for l in lines))
 
 meta = dict(id=sid, property=prop, source=src, repo_head=sh('git -C /repo rev-parse --short HEAD')[1].strip())
-assert sh('git -C /repo status --short')[1].strip() == '', '/repo not clean'
+if use_wt:
+    if not os.path.exists(TARGET): sh(f'git -C /repo worktree add --detach {TARGET} HEAD -q')
+    sh(f'git -C {TARGET} checkout -q --detach $(git -C /repo rev-parse HEAD) && git -C {TARGET} checkout -- .')
+assert sh(f'git -C {TARGET} status --short')[1].strip() == '', f'{TARGET} not clean'
 rc0, out0 = demo('/repo'); meta['demo_clean_exit'] = rc0
-rc, out = sh(f'git -C /repo apply --whitespace=nowarn {patch}')
+rc, out = sh(f'git -C {TARGET} apply --whitespace=nowarn {patch}')
 if rc != 0:
-    rc, out = sh(f'git -C /repo apply --3way --whitespace=nowarn {patch}')
+    rc, out = sh(f'git -C {TARGET} apply --3way --whitespace=nowarn {patch}')
 meta['apply'] = 'ok' if rc == 0 else out[-300:]
 try:
     if rc == 0:
-        rc1, out1 = demo('/repo'); meta['demo_patched_exit'] = rc1; meta['demo_patched_tail'] = out1[-300:]
+        rc1, out1 = demo(TARGET); meta['demo_patched_exit'] = rc1; meta['demo_patched_tail'] = out1[-300:]
         meta['checks'] = {prop: check(prop)}
         if do_all:
             man = json.load(open(os.path.join(here, 'MANIFEST.json')))
@@ -54,9 +64,13 @@ try:
                 if c['property_id'] != prop:
                     meta['checks'][c['property_id']] = check(c['property_id'])
 finally:
-    sh('git -C /repo checkout -- . && git -C /repo reset -q && git -C /repo checkout -- .')
-    assert sh('git -C /repo status --short')[1].strip() == '', '/repo not restored'
-meta['check_after_restore'] = check(prop)['exit']
+    sh(f'git -C {TARGET} checkout -- . && git -C {TARGET} reset -q && git -C {TARGET} checkout -- .')
+    assert sh(f'git -C {TARGET} status --short')[1].strip() == '', f'{TARGET} not restored'
+meta['check_after_restore'] = check(prop, patched=False)['exit']
+meta['mode'] = 'scratch worktree via STARSIM_REPO' if use_wt else 'patched /repo'
+if use_wt:
+    sh(f'git -C /repo worktree remove --force {TARGET}')
+
 if do_tests:
     wt = f'/tmp/seedtest_{sid}'
     sh(f'git -C /repo worktree add --detach {wt} HEAD -q && git -C {wt} apply --whitespace=nowarn {patch}')
